@@ -257,7 +257,7 @@ H(h_ceil_div_u32, ceil_div<u32>()) H(h_ceil_div_u64, ceil_div<u64>())
 H(h_ceil_div_signed_i32, ceil_div_signed<i32>()) H(h_ceil_div_signed_i64, ceil_div_signed<i64>()) H(h_ceil_div_signed_small, ceil_div_signed_small())
 //@harness h_ceil_div_signed_i32 tier=quick
 //@harness h_ceil_div_signed_i64 tier=quick
-//@harness h_ceil_div_signed_small tier=quick
+//@harness h_ceil_div_signed_small tier=quick query_ms=240000 wall=600
 H(h_div_mod_u8, div_mod<u8>()) H(h_div_mod_u16, div_mod<u16>()) H(h_div_mod_u32, div_mod<u32>()) H(h_div_mod_u64, div_mod<u64>())
 //@harness h_div_mod_{T} for T in u8,u16,u32,u64 tier=quick
 H(h_clamp_u8, clamp<u8>()) H(h_clamp_u16, clamp<u16>()) H(h_clamp_u32, clamp<u32>()) H(h_clamp_u64, clamp<u64>())
